@@ -17,8 +17,16 @@ type ReadGuard = parking_lot::RwLockReadGuard<'static, Box<dyn TreeReader + Send
 pub struct TreeRt {
 	/// model node id -> database address
 	pub addr: HashMap<u64, u64>,
-	/// key index -> (reader, guard, digest of the tree when locked)
-	pub locks: HashMap<usize, (ReaderArc, Option<ReadGuard>, u64)>,
+	/// key index -> held reader lock
+	pub locks: HashMap<usize, Held>,
+}
+
+/// A held tree reader lock. Field order matters: the guard must be dropped before the Arc that
+/// owns the lock it refers to.
+pub struct Held {
+	pub guard: Option<ReadGuard>,
+	pub reader: ReaderArc,
+	pub digest: u64,
 }
 
 #[derive(Clone, Debug, Default)]
@@ -107,6 +115,11 @@ pub fn applicable(ex: &Exec, col: u8, op: &TxOp, touched: &HashSet<usize>) -> bo
 	match op {
 		TxOp::InsertTree(k, spec) => {
 			if touched.contains(k) || m.roots.contains_key(&keys[*k]) {
+				return false
+			}
+			// Re-inserting under a key whose (dereferenced) tree is still held by a reader is
+			// outside the modelled use: root keys of live/held trees are distinct.
+			if ex.tree_rt.get(col as usize).map_or(false, |r| r.locks.contains_key(k)) {
 				return false
 			}
 			fn ok(m: &TreeModel, keys: &[Vec<u8>], s: &TreeSpec, touched: &HashSet<usize>, rt: &TreeRt) -> bool {
@@ -243,6 +256,13 @@ fn db_digest(reader: &dyn TreeReader, data: &[u8], children: &[u64], memo: &mut 
 
 /// Compare the tree under `k` with the model node-by-node and bind addresses.
 fn check_tree(ex: &mut Exec, col: u8, k: usize) {
+	let victim = ex.deferral_victims.contains(&(col, k));
+	ex.victim_ctx = victim;
+	check_tree_inner(ex, col, k);
+	ex.victim_ctx = false;
+}
+
+fn check_tree_inner(ex: &mut Exec, col: u8, k: usize) {
 	let key = ex.col_cfgs[col as usize].keys[k].clone();
 	let ColModel::Tree(m) = &ex.cur[col as usize] else { return };
 	let m = m.clone();
@@ -445,20 +465,24 @@ pub fn matches(ex: &Exec, col: u8, o: &ObservedTrees, m: &TreeModel) -> Result<(
 			return Err(format!("col {col} tree key#{k}: db {:?}, state {:?}", got.is_some(), want.is_some()))
 		}
 	}
-	let (append_only, _, _) = kind_flags(ex, col);
-	if !append_only {
-		if let Some(e) = o.entries {
-			if e != live_counts(m) {
-				return Err(format!("col {col}: {} value entries, state has {} live nodes+roots", e, live_counts(m)))
-			}
-		}
-	}
 	Ok(())
 }
 
 /// Entry-count conservation at a drained point (C10).
 pub fn check_entry_count(ex: &mut Exec, col: u8) {
 	let (append_only, _, _) = kind_flags(ex, col);
+	if ex.claimed_leak.contains(&col) {
+		ex.claim_ctx = true;
+	}
+	check_entry_count_inner(ex, col, append_only);
+	ex.claim_ctx = false;
+}
+
+fn check_entry_count_inner(ex: &mut Exec, col: u8, append_only: bool) {
+	if !ex.deferral_victims.is_empty() {
+		// a postponed transaction was applied out of order (known C11 finding): counts are off
+		return
+	}
 	let ColModel::Tree(m) = &ex.cur[col as usize] else { return };
 	let want = live_counts(m);
 	if append_only {
@@ -490,6 +514,14 @@ pub fn lock_tree(ex: &mut Exec, c: u8, k: usize) {
 	if rt(ex, c).locks.contains_key(&k) {
 		return
 	}
+	// Only stable trees are locked: no commit that is still queued names this root key.
+	let q = ex.pipeline_counts().0;
+	let n = ex.commit_keys.len();
+	for i in n.saturating_sub(q)..n {
+		if ex.commit_keys[i].0.contains(&(c, k)) {
+			return
+		}
+	}
 	let ColModel::Tree(m) = &ex.cur[c as usize] else { return };
 	let Some((root, _)) = m.roots.get(&key).cloned() else { return };
 	let mut memo = HashMap::new();
@@ -498,15 +530,34 @@ pub fn lock_tree(ex: &mut Exec, c: u8, k: usize) {
 		let g = t.read();
 		// The guard borrows the Arc we keep right next to it; dropped before the Arc.
 		let g: ReadGuard = unsafe { std::mem::transmute(g) };
-		rt(ex, c).locks.insert(k, (t.clone(), Some(g), digest));
+		rt(ex, c).locks.insert(k, Held { guard: Some(g), reader: t.clone(), digest });
+		ex.locks_used = true;
+		// commits still queued that dereference this tree will be postponed behind later ones
+		let q = ex.pipeline_counts().0;
+		let n = ex.commit_keys.len();
+		let mut victims: Vec<(u8, usize)> = Vec::new();
+		let mut hit = false;
+		for i in n.saturating_sub(q)..n {
+			let (all, derefs) = &ex.commit_keys[i];
+			if derefs.contains(&(c, k)) {
+				hit = true;
+			}
+			if hit {
+				victims.extend(all.iter().cloned());
+			}
+		}
+		if hit {
+			ex.deferral_victims.extend(victims);
+			ex.stats.probe("lock_taken_with_queued_dereference");
+		}
 		ex.stats.probe("tree_locked");
 	}
 }
 
 pub fn unlock_tree(ex: &mut Exec, c: u8, k: usize) {
 	if let Some(r) = ex.tree_rt.get_mut(c as usize) {
-		if let Some((_t, g, _)) = r.locks.get_mut(&k) {
-			*g = None;
+		if let Some(h) = r.locks.get_mut(&k) {
+			h.guard = None;
 		}
 		r.locks.remove(&k);
 	}
@@ -518,8 +569,9 @@ pub fn check_locked(ex: &mut Exec) {
 		let ks: Vec<usize> = ex.tree_rt[c].locks.keys().cloned().collect();
 		for k in ks {
 			let res: Result<u64, String> = {
-				let (_t, g, _) = &ex.tree_rt[c].locks[&k];
-				let g = g.as_ref().unwrap();
+				let h = &ex.tree_rt[c].locks[&k];
+				let _ = &h.reader;
+				let g = h.guard.as_ref().unwrap();
 				match g.get_root() {
 					Ok(Some((data, children))) => {
 						let mut memo = HashMap::new();
@@ -529,7 +581,7 @@ pub fn check_locked(ex: &mut Exec) {
 					Err(e) => Err(format!("get_root failed: {e}")),
 				}
 			};
-			let want = ex.tree_rt[c].locks[&k].2;
+			let want = ex.tree_rt[c].locks[&k].digest;
 			match res {
 				Ok(d) if d == want => {},
 				Ok(_) => ex.push_violation("C11", "locked-tree-changed", format!("col {c} key#{k}: tree content changed while its reader lock is held")),
@@ -541,8 +593,8 @@ pub fn check_locked(ex: &mut Exec) {
 
 pub fn release_all(ex: &mut Exec) {
 	for r in ex.tree_rt.iter_mut() {
-		for (_k, (_t, g, _)) in r.locks.iter_mut() {
-			*g = None;
+		for (_k, h) in r.locks.iter_mut() {
+			h.guard = None;
 		}
 		r.locks.clear();
 	}
